@@ -402,7 +402,7 @@ func TestC14Doc(t *testing.T) {
 		c := caseDoc{}
 		reason := rapid.SampledFrom([]string{"", "", "not-json", "first-byte", "no-statement", "empty-statement", "bad-effect",
 			"unknown-action", "unknown-principal", "star-mixed", "no-arn", "other-bucket", "other-bucket-prefix", "object-action-bucket-resource",
-			"bucket-action-object-resource", "mixed-action-missing-kind", "empty-field"}).Draw(t, "reason")
+			"bucket-action-object-resource", "mixed-action-missing-kind", "empty-field", "missing-field"}).Draw(t, "reason")
 		c.Reason = reason
 		v := &stmts[i]
 		raw := ""
@@ -458,7 +458,7 @@ func TestC14Doc(t *testing.T) {
 		switch {
 		case raw != "":
 			c.Doc = raw
-		case reason == "no-arn" || reason == "other-bucket" || reason == "other-bucket-prefix" || reason == "empty-field":
+		case reason == "no-arn" || reason == "other-bucket" || reason == "other-bucket-prefix" || reason == "empty-field" || reason == "missing-field":
 			var bad string
 			switch reason {
 			case "no-arn":
@@ -469,7 +469,19 @@ func TestC14Doc(t *testing.T) {
 				bad = "arn:aws:s3:::" + rapid.SampledFrom([]string{bucket + "2/*", bucket + "2", bucket + "x/a", bucket + "-backup/*", bucket + ".old"}).Draw(t, "other_prefix")
 			}
 			d := v.render()
-			if reason == "empty-field" {
+			if reason == "missing-field" {
+				// a statement lacks one of its four elements altogether
+				field := rapid.SampledFrom([]string{"Effect", "Principal", "Action", "Resource"}).Draw(t, "missing_which")
+				var m map[string]json.RawMessage
+				json.Unmarshal([]byte(d), &m)
+				parts := []string{}
+				for _, k := range []string{"Effect", "Principal", "Action", "Resource"} {
+					if k != field {
+						parts = append(parts, js(k)+":"+string(m[k]))
+					}
+				}
+				d = "{" + strings.Join(parts, ",") + "}"
+			} else if reason == "empty-field" {
 				field := rapid.SampledFrom([]string{"Principal", "Action", "Resource"}).Draw(t, "empty_which")
 				empty := rapid.SampledFrom([]string{`[]`, `""`, `null`, `{}`, `{"AWS":[]}`, `{"AWS":""}`}).Draw(t, "empty_val")
 				if field != "Principal" && strings.HasPrefix(empty, "{") {
@@ -638,8 +650,23 @@ func TestC14B(t *testing.T) {
 		var c caseB
 		c.Good = renderDoc(rapid.SliceOfN(validStmtGen(), 1, 3).Draw(t, "good"))
 		bad := rapid.SliceOfN(validStmtGen(), 1, 2).Draw(t, "bad")
-		c.Reason = rapid.SampledFrom([]string{"not-json", "empty-statement", "bad-effect", "unknown-action", "unknown-principal", "other-bucket", "other-bucket-prefix", "kind-mismatch"}).Draw(t, "reason")
+		c.Reason = rapid.SampledFrom([]string{"not-json", "empty-statement", "bad-effect", "unknown-action", "unknown-principal", "other-bucket", "other-bucket-prefix", "kind-mismatch", "trailing-bytes", "missing-field"}).Draw(t, "reason")
 		switch c.Reason {
+		case "trailing-bytes":
+			// a valid document followed by something: not one JSON document
+			c.Bad = renderDoc(bad) + rapid.SampledFrom([]string{"x", "}", " {}", "\n" + renderDoc(bad), ","}).Draw(t, "trailing")
+		case "missing-field":
+			d := bad[0].render()
+			var m map[string]json.RawMessage
+			json.Unmarshal([]byte(d), &m)
+			field := rapid.SampledFrom([]string{"Effect", "Principal", "Action", "Resource"}).Draw(t, "missing_which")
+			parts := []string{}
+			for _, k := range []string{"Effect", "Principal", "Action", "Resource"} {
+				if k != field {
+					parts = append(parts, js(k)+":"+string(m[k]))
+				}
+			}
+			c.Bad = `{"Version":"2012-10-17","Statement":[{` + strings.Join(parts, ",") + `}]}`
 		case "not-json":
 			c.Bad = renderDoc(bad)[:10]
 		case "empty-statement":
